@@ -444,6 +444,64 @@ def record_generic(ctx, rid, rng, system, joint, subs, B_r, A_K, jname, d2, wher
     return rec, w
 
 
+def unit_change(ctx, rng, jname, axis, lam=2.0 ** -30):
+    """the same mechanism in another unit of length (JointKernel.tla, Homogeneous): two rigid bodies and a joint are built twice, with every length,
+    translational velocity and acceleration multiplied by lam (a power of two: exact in binary floating point) the second time; every component of
+    every routine of the joint must be the first system's value times lam^p with p fixed by the kind of the component and of the variable"""
+    from cardillo import System
+    from cardillo.discrete import RigidBody
+    from cardillo.constraints import Spherical, RigidConnection, Revolute, Prismatic, Cylindrical, Planarizer, FixedDistance
+    from cardillo.solver import SolverOptions
+
+    iv = lambda lo=-2, hi=3: np.array([rng.randint(lo, hi) for _ in range(3)], dtype=float)
+    gq = lambda: GEN_QUATS[rng.randrange(len(GEN_QUATS))] * rng.choice([1.0, -1.0, 2.0])
+    pos0 = [iv(), iv() + np.array([4.0, 0.0, 0.0])]
+    P0 = [gq(), gq()]
+    rJ = iv(); AJ = quat_to_matrix(GEN_QUATS[rng.randrange(len(GEN_QUATS))])
+    B1, B2 = iv(-1, 2), iv(-1, 2)
+    state = dict(r=[iv(), iv()], P=[gq(), gq()], v=[iv(), iv()], w=[iv(-2, 2), iv(-2, 2)], a=[iv(), iv()], wd=[iv(-1, 2), iv(-1, 2)])
+    out = []
+    for L in (1.0, lam):
+        system = System()
+        bodies = [RigidBody(1.0 + i, np.diag([1.0, 2.0, 3.0]), q0=np.concatenate([pos0[i] * L, P0[i]]), u0=np.zeros(6), name=f"uc{i}_{rng.randrange(10**9)}") for i in range(2)]
+        system.add(*bodies)
+        if jname == "FixedDistance":
+            joint = FixedDistance(bodies[0], bodies[1], B1_r_P1J1=B1 * L, B2_r_P2J2=B2 * L)
+        elif jname == "Spherical":
+            joint = Spherical(bodies[0], bodies[1], r_OJ0=rJ * L)
+        elif jname == "RigidConnection":
+            joint = RigidConnection(bodies[0], bodies[1], r_OJ0=rJ * L, A_IJ0=AJ)
+        else:
+            joint = dict(Revolute=Revolute, Prismatic=Prismatic, Cylindrical=Cylindrical, Planarizer=Planarizer)[jname](bodies[0], bodies[1], axis, r_OJ0=rJ * L, A_IJ0=AJ)
+        system.add(joint)
+        system.assemble(options=SolverOptions(compute_consistent_initial_conditions=False))
+        q = np.concatenate([np.concatenate([state["r"][i] * L, state["P"][i]]) for i in range(2)])
+        u = np.concatenate([np.concatenate([state["v"][i] * L, state["w"][i]]) for i in range(2)])
+        ud = np.concatenate([np.concatenate([state["a"][i] * L, state["wd"][i]]) for i in range(2)])
+        jd = jdesc(joint, jname, 0)
+        pc = np.array(([2] if jd["fd"] else []) + ([1] * 3 if jd["full"] else []) + [1] * len(jd["axes"]) + [0] * len(jd["pairs"]), dtype=float)
+        la = np.array([1.0 + 0.5 * k for k in range(len(pc))]) * L ** (2 - pc)
+        t = 0.0
+        vals = dict(g=np.atleast_1d(joint.g(t, q.copy())), g_dot=np.atleast_1d(joint.g_dot(t, q.copy(), u.copy())), g_ddot=np.atleast_1d(joint.g_ddot(t, q.copy(), u.copy(), ud.copy())),
+                    g_q=np.asarray(joint.g_q(t, q.copy())).reshape(len(pc), 14), g_dot_q=np.asarray(joint.g_dot_q(t, q.copy(), u.copy())).reshape(len(pc), 14),
+                    g_dot_u=np.asarray(joint.g_dot_u(t, q.copy())).reshape(len(pc), 12), W_g=np.asarray(joint.W_g(t, q.copy())).reshape(12, len(pc)),
+                    Wla_g_q=np.asarray(joint.Wla_g_q(t, q.copy(), la if jname != "FixedDistance" else la[0])).reshape(12, 14))
+        out.append((vals, pc))
+    (A, pc), (Bv, _) = out
+    pq = np.array([1, 1, 1, 0, 0, 0, 0] * 2, dtype=float); pu = np.array([1, 1, 1, 0, 0, 0] * 2, dtype=float)
+    power = dict(g=pc, g_dot=pc, g_ddot=pc, g_q=pc[:, None] - pq[None, :], g_dot_q=pc[:, None] - pq[None, :], g_dot_u=pc[:, None] - pu[None, :],
+                 W_g=pc[None, :] - pu[:, None], Wla_g_q=2.0 - pu[:, None] - pq[None, :])
+    where = dict(joint=jname, axis=axis, history=f"the same mechanism with every length multiplied by {lam!r}", state={k: [x.tolist() for x in v] for k, v in state.items()})
+    n = 0
+    for name, pw in power.items():
+        exp = A[name] * lam ** pw
+        n += 1
+        if Bv[name].shape != exp.shape or not (np.max(np.abs(Bv[name] - exp) / (np.abs(exp) + lam ** np.maximum(pw, 0) * 1e-12 + 1e-300), initial=0.0) <= 1e-9):
+            ctx.violation(f"{jname}:unit-change:{name}", f"{name} of the mechanism in another unit of length (factor {lam!r}) is not the scaled {name} of the original "
+                          f"(largest relative deviation {np.max(np.abs(Bv[name] - exp) / (np.abs(exp) + 1e-300)):.3e}) at {where}", where)
+    return n
+
+
 PAIRINGS = [("origin", "rigid"), ("rigid", "rigid"), ("tframe", "rigid"), ("rigid", "rframe"), ("rframe", "rigid"), ("rigid", "tframe")]
 PM_PAIRINGS = [("point", "rigid"), ("rigid", "point"), ("point", "point"), ("tframe", "point")]
 ROD_PAIRINGS = [("rod1", "rod0"), ("rigid", "rod0"), ("rod1", "rigid"), ("origin", "rodm"), ("rod0", "rod1")]
@@ -552,6 +610,15 @@ def run(ctx):
                     records.append(rec); wheres[rid] = w
                     counts[jname + "(generic)"] = counts.get(jname + "(generic)", 0) + 1
                     ngen += 1
+    nunit = 0
+    for jname, axis in joint_specs():
+        for rep in range(3 if ctx.thorough else 1):
+            try:
+                # (FixedDistance refuses, loudly, an initial distance below an absolute threshold: a milder change of units there)
+                nunit += unit_change(ctx, rng, jname, axis, lam=2.0 ** -30 if jname != "FixedDistance" else 2.0 ** -8)
+            except Exception as ex:
+                ctx.violation(f"{jname}:unit-change:raises", f"{type(ex).__name__}: {ex}", dict(joint=jname, axis=axis))
+    counts["unit changes (routines compared)"] = nunit
     if not records:
         raise tlc.MachineryError("no joint records produced")
     # self-test of the binding (section 3.4): two corrupted copies of the first record must be rejected
